@@ -4,6 +4,7 @@ import (
 	"fmt"
 	"go/constant"
 	"go/token"
+	"go/types"
 	"sort"
 	"strings"
 
@@ -156,6 +157,11 @@ func checkC15(c *Ctx, r *Report) {
 		if len(rets) != 1 || hasLoop(f) {
 			r.Unk(name+"|shape", f.Pos(), "expected a single straight-line return")
 		} else {
+			if w := narrowArithmetic(rets[0].Results[0]); w != "" {
+				r.Bad(name+"|integer width", f.Pos(), "integer arithmetic in the conversion can overflow: "+w)
+			} else {
+				r.OK(name+"|integer width", f.Pos(), "every integer product/sum is computed in a type wide enough for its operands")
+			}
 			got, err := polyOf(rets[0].Results[0], atom)
 			want := polyAdd(polyMul(polyMul(polyAtom("M"), polyAtom("x")), polyAtom("T(RExp)")), polyMul(polyMul(polyAtom("B"), polyAtom("T(BExp)")), polyAtom("T(RExp)")), 1)
 			if err != nil {
@@ -234,6 +240,83 @@ func checkC15(c *Ctx, r *Report) {
 
 	// (5) reader selection and flag handling
 	checkSensorReaders(c, r)
+}
+
+// bitsOf returns the size in bits of a basic integer type (0 if not an integer).
+func bitsOf(t types.Type) int {
+	b, ok := t.Underlying().(*types.Basic)
+	if !ok || b.Info()&types.IsInteger == 0 {
+		return 0
+	}
+	switch b.Kind() {
+	case types.Int8, types.Uint8:
+		return 8
+	case types.Int16, types.Uint16:
+		return 16
+	case types.Int32, types.Uint32:
+		return 32
+	}
+	return 64
+}
+
+// narrowArithmetic walks an arithmetic expression and reports integer
+// operations whose result type cannot hold the range of their operands
+// (operands sized by the narrowest type on their conversion chain).
+func narrowArithmetic(v ssa.Value) string {
+	var need func(v ssa.Value) int
+	bad := ""
+	need = func(v ssa.Value) int {
+		switch x := v.(type) {
+		case *ssa.Convert:
+			if bitsOf(x.X.Type()) == 0 {
+				return bitsOf(x.Type())
+			}
+			n := need(x.X)
+			if b := bitsOf(x.Type()); b != 0 && b < n {
+				return b // truncating conversion: range shrinks (its correctness is a layout question)
+			}
+			return n
+		case *ssa.ChangeType:
+			return need(x.X)
+		case *ssa.BinOp:
+			if bitsOf(x.Type()) == 0 {
+				need(x.X)
+				need(x.Y)
+				return 0
+			}
+			a, b := need(x.X), need(x.Y)
+			req := 0
+			switch x.Op {
+			case token.MUL:
+				req = a + b
+			case token.ADD, token.SUB:
+				req = a
+				if b > req {
+					req = b
+				}
+				req++
+			default:
+				return bitsOf(x.Type())
+			}
+			if req > 64 {
+				req = 64
+			}
+			if have := bitsOf(x.Type()); have < req {
+				bad = fmt.Sprintf("%s computed in %d bits needs %d", x.Op, have, req)
+			}
+			return req
+		case *ssa.Call:
+			for _, a := range x.Call.Args {
+				need(a)
+			}
+			return bitsOf(x.Type())
+		case *ssa.Const:
+			return 1
+		}
+		return bitsOf(v.Type())
+	}
+	need(v)
+	return bad
 }
 
 func describeLineariser(v *GVal) string {
